@@ -767,8 +767,9 @@ builtin_add!(SumAddI32, SumAdd, i32, true, "SumAdd<i32>", 0, |a, b| a + b, Grows
 
 // ------------------------------------------------------------------------------------------------
 // Min / Max over an element type whose order looks at a key only (an "argmin" element: key + payload). Equal keys are
-// the rule here (keys 0..=3), so which of several equal elements a node holds is visible: the built-in merge keeps the
-// right operand on a tie, the left-to-right merge of a range is therefore its *last* extremal element.
+// the rule here (keys 0..=3), so which of several equal elements a node holds is visible. The expected answer is the fold
+// of the item's own merge over the leaves from left to right (today the right operand wins a tie, so that is the *last*
+// extremal element of the range; the oracle does not depend on that choice).
 
 #[derive(Clone, Copy, Debug, Default)]
 pub struct Keyed {
@@ -825,18 +826,22 @@ macro_rules! builtin_keyed {
                 ($emptykey, u32::MAX)
             }
             fn extend(o: &mut (i32, u32), e: &(i32, u32)) {
-                // merge(o, e): the right operand unless the left one is strictly better
+                // the property speaks of "the left-to-right merge of the elements": which of two elements with equal keys
+                // a merge keeps is the item's own business, so the fold uses the item's merge on two leaves (today the
+                // right operand wins a tie; the merge is trusted for nothing else)
+                let m = <$item<Keyed> as SegtreeItem>::merge(&$item::new(Keyed { key: o.0, id: o.1 }), &$item::new(Keyed { key: e.0, id: e.1 }));
                 let f: fn(i32, i32) -> bool = $takes_new;
-                if f(o.0, e.0) {
-                    *o = *e;
-                }
+                let got = (m.v.key, m.v.id);
+                // the merge is trusted for the choice among equal keys only: otherwise the independent rule decides
+                let indep = if f(o.0, e.0) { *e } else { *o };
+                *o = if (got == *o || got == *e) && got.0 == indep.0 { got } else { indep };
             }
             fn extend_left(o: &mut (i32, u32), e: &(i32, u32)) {
-                // merge(e, o): the left operand only when it is strictly better
+                let m = <$item<Keyed> as SegtreeItem>::merge(&$item::new(Keyed { key: e.0, id: e.1 }), &$item::new(Keyed { key: o.0, id: o.1 }));
                 let f: fn(i32, i32) -> bool = $takes_new;
-                if !f(e.0, o.0) {
-                    *o = *e;
-                }
+                let got = (m.v.key, m.v.id);
+                let indep = if !f(e.0, o.0) { *e } else { *o };
+                *o = if (got == *o || got == *e) && got.0 == indep.0 { got } else { indep };
             }
             fn observe(i: &Self::Item) -> (i32, u32) {
                 (i.v.key, i.v.id)
